@@ -20,7 +20,7 @@
 (* the property leaves free.  GC and CloseReopen are therefore stuttering  *)
 (* steps of the abstract book with an observable obligation attached.      *)
 (***************************************************************************)
-EXTENDS Integers, FiniteSets, TLC
+EXTENDS Integers, Sequences, FiniteSets, TLC
 
 CONSTANTS Addrs,     \* address names (strings)
           TTLs,      \* TTL values calls may pass; 0 stands for the whole non-positive class
@@ -31,7 +31,9 @@ CONSTANTS Addrs,     \* address names (strings)
 
 ASSUME /\ 0 \in TTLs /\ \A t \in TTLs : t \in Nat
        /\ Cap \in Nat
-       /\ Cap > 0 => \A S \in Batches : Cardinality(S) = 1   \* cap modelled for one-address calls only
+\* Batches: with Cap = 0 the order of the addresses in a call is irrelevant and a batch is a SET; with the
+\* binding cap (Cap > 0) a batch is a SEQUENCE without repetitions, processed in order (each address may
+\* evict), so that batches which refresh a stored address and insert a new one are distinguished by order.
 
 Inf == 99                       \* remaining lifetime of a connected/permanent entry (never decremented)
 None == [ttl |-> 0, rem |-> 0]
@@ -63,36 +65,59 @@ Init == /\ book = [a \in Addrs |-> None]
 ----------------------------------------------------------------------------
 (* per-peer cap: inserting a NEW unconnected address when Cap unconnected ones are stored evicts *)
 (* the unconnected entry with the nearest expiry; among equal expiries the victim is unspecified *)
-(* (map order in one store, slice order in the other): `Tie` flags it and replay stops there.    *)
+(* (map order in one store, slice order in the other): `tie` flags it and replay stops there.    *)
+(* A call naming several addresses is the sequence of the one-address calls, in the given order. *)
+Elems(B) == IF Cap = 0 THEN B ELSE {B[i] : i \in 1..Len(B)}
+Order(B) == IF Cap = 0 THEN <<>> ELSE B
 NeedEvict(b, a, t) == Cap > 0 /\ ~Present(b, a) /\ ~IsConn(t) /\ Cardinality(Unconn(b)) >= Cap
 Minima(b) == {x \in Unconn(b) : \A y \in Unconn(b) : b[x].rem <= b[y].rem}
 Victim(b) == CHOOSE x \in Minima(b) : TRUE
-Evicted(b, S, t) ==      \* S is a singleton whenever Cap > 0
-  IF Cap > 0 /\ \E a \in S : NeedEvict(b, a, t)
-  THEN [b EXCEPT ![Victim(b)] = None] ELSE b
-Tie(b, S, t) == Cap > 0 /\ (\E a \in S : NeedEvict(b, a, t)) /\ Cardinality(Minima(b)) > 1
 
-\* AddAddrs on a cleaned book: never shortens (ttl := max, expiry := max)
-Extend(b, S, t) ==
-  [a \in Addrs |-> IF a \in S
-                   THEN (IF Present(b, a)
-                         THEN [ttl |-> Max(b[a].ttl, t), rem |-> Max(b[a].rem, Life(t))]
-                         ELSE [ttl |-> t, rem |-> Life(t)])
-                   ELSE b[a]]
+\* one address of a call: ov = override (SetAddrs) or extend (AddAddrs / signed record)
+One(b, a, t, ov) ==
+  IF Present(b, a)
+  THEN [b EXCEPT ![a] = IF ov THEN [ttl |-> t, rem |-> Life(t)]
+                        ELSE [ttl |-> Max(b[a].ttl, t), rem |-> Max(b[a].rem, Life(t))]]
+  ELSE LET b1 == IF NeedEvict(b, a, t) THEN [b EXCEPT ![Victim(b)] = None] ELSE b
+       IN [b1 EXCEPT ![a] = [ttl |-> t, rem |-> Life(t)]]
+
+RECURSIVE Fold(_, _, _, _), FoldTie(_, _, _, _), FoldOwn(_, _, _, _, _)
+Fold(b, q, t, ov) == IF q = <<>> THEN b ELSE Fold(One(b, Head(q), t, ov), Tail(q), t, ov)
+\* some eviction of the call chose among several entries with the same nearest expiry
+FoldTie(b, q, t, ov) ==
+  q # <<>> /\ \/ (NeedEvict(b, Head(q), t) /\ Cardinality(Minima(b)) > 1)
+              \/ FoldTie(One(b, Head(q), t, ov), Tail(q), t, ov)
+\* some eviction of the call removed an address the SAME call had inserted (`new`)
+FoldOwn(b, q, t, ov, new) ==
+  q # <<>> /\ \/ (NeedEvict(b, Head(q), t) /\ Victim(b) \in new)
+              \/ FoldOwn(One(b, Head(q), t, ov), Tail(q), t, ov,
+                         IF Present(b, Head(q)) THEN new ELSE new \cup {Head(q)})
+
+\* the book after AddAddrs (ov = FALSE) / SetAddrs with a positive ttl (ov = TRUE) naming batch B
+Put(b, B, t, ov) ==
+  IF Cap > 0 THEN Fold(b, B, t, ov)
+  ELSE [a \in Addrs |-> IF a \in B
+                        THEN (IF Present(b, a) /\ ~ov
+                              THEN [ttl |-> Max(b[a].ttl, t), rem |-> Max(b[a].rem, Life(t))]
+                              ELSE [ttl |-> t, rem |-> Life(t)])
+                        ELSE b[a]]
+Tie(b, B, t, ov) == Cap > 0 /\ FoldTie(b, B, t, ov)
+Own(b, B, t, ov) == Cap > 0 /\ FoldOwn(b, B, t, ov, {})
 
 Add(S, t) ==
   /\ IF t = 0 THEN book' = book /\ rec' = rec
-     ELSE LET b2 == Extend(Evicted(book, S, t), S, t) IN book' = b2 /\ rec' = RecAfter(b2, rec)
-  /\ op' = [name |-> "add", addrs |-> S, ttl |-> t, tie |-> (t # 0 /\ Tie(book, S, t))]
+     ELSE LET b2 == Put(book, S, t, FALSE) IN book' = b2 /\ rec' = RecAfter(b2, rec)
+  /\ op' = [name |-> "add", addrs |-> Elems(S), order |-> Order(S), ttl |-> t,
+            tie |-> (t # 0 /\ Tie(book, S, t, FALSE)), own |-> (t # 0 /\ Own(book, S, t, FALSE))]
            @@ Obs(book', rec')
 
 \* SetAddrs: override; a non-positive ttl removes exactly the named addresses
 Set(S, t) ==
-  /\ LET b1 == IF t = 0 THEN book ELSE Evicted(book, S, t)
-         b2 == [a \in Addrs |-> IF a \in S THEN (IF t = 0 THEN None ELSE [ttl |-> t, rem |-> Life(t)])
-                                ELSE b1[a]]
+  /\ LET b2 == IF t = 0 THEN [a \in Addrs |-> IF a \in Elems(S) THEN None ELSE book[a]]
+               ELSE Put(book, S, t, TRUE)
      IN book' = b2 /\ rec' = RecAfter(b2, rec)
-  /\ op' = [name |-> "set", addrs |-> S, ttl |-> t, tie |-> (t # 0 /\ Tie(book, S, t))]
+  /\ op' = [name |-> "set", addrs |-> Elems(S), order |-> Order(S), ttl |-> t,
+            tie |-> (t # 0 /\ Tie(book, S, t, TRUE)), own |-> (t # 0 /\ Own(book, S, t, TRUE))]
            @@ Obs(book', rec')
 
 \* UpdateAddrs(old, new): moves exactly the addresses whose ttl is `old`
@@ -113,15 +138,16 @@ Consume(q, S, t) ==
   /\ t # 0
   /\ IF rec.has /\ rec.seq > q
      THEN /\ UNCHANGED <<book, rec>>
-          /\ op' = [name |-> "consume", seq |-> q, addrs |-> S, ttl |-> t, res |-> FALSE, tie |-> FALSE]
-                   @@ Obs(book, rec)
-     ELSE LET gone == {a \in rec.addrs \ S : Present(book, a) /\ ~IsConn(book[a].ttl)}
+          /\ op' = [name |-> "consume", seq |-> q, addrs |-> Elems(S), order |-> Order(S), ttl |-> t,
+                    res |-> FALSE, tie |-> FALSE, own |-> FALSE] @@ Obs(book, rec)
+     ELSE LET gone == {a \in rec.addrs \ Elems(S) : Present(book, a) /\ ~IsConn(book[a].ttl)}
               b1 == [a \in Addrs |-> IF a \in gone THEN None ELSE book[a]]
-              b2 == Extend(Evicted(b1, S, t), S, t)
-              r2 == [has |-> TRUE, seq |-> q, addrs |-> S]
+              b2 == Put(b1, S, t, FALSE)
+              r2 == [has |-> TRUE, seq |-> q, addrs |-> Elems(S)]
           IN /\ book' = b2 /\ rec' = RecAfter(b2, r2)
-             /\ op' = [name |-> "consume", seq |-> q, addrs |-> S, ttl |-> t, res |-> TRUE,
-                       tie |-> Tie(b1, S, t), evicted |-> gone] @@ Obs(book', rec')
+             /\ op' = [name |-> "consume", seq |-> q, addrs |-> Elems(S), order |-> Order(S), ttl |-> t,
+                       res |-> TRUE, tie |-> Tie(b1, S, t, FALSE), own |-> Own(b1, S, t, FALSE),
+                       evicted |-> gone] @@ Obs(book', rec')
 
 \* one tick of the clock; an entry whose lifetime ends is dead at that very instant
 Tick ==
@@ -154,12 +180,10 @@ Spec == Init /\ [][Next]_vars
 TypeOK == /\ \A a \in Addrs : book[a] = None \/
                  (book[a].ttl \in TTLs \ {0} /\ book[a].rem >= 1 /\ book[a].rem <= Life(book[a].ttl)
                   /\ (IsConn(book[a].ttl) <=> book[a].rem = Inf))
-          /\ rec.has => (rec.seq \in Seqs /\ rec.addrs \in Batches)
+          /\ rec.has => (rec.seq \in Seqs /\ rec.addrs \in {Elems(B) : B \in Batches})
 
 \* a record is only ever returned while the peer has a live address
 RecordLifetime == rec.has => Live(book) # {}
-
-Named(o) == IF o.name \in {"add", "set", "consume"} THEN o.addrs ELSE {}
 
 \* adding never shortens a lifetime (no cap: the cap is allowed to evict)
 AddNeverShortens ==
@@ -172,7 +196,8 @@ AddScope ==
 \* setting overrides; a non-positive ttl removes exactly the named addresses
 SetOverrides ==
   [][op'.name = "set" =>
-       /\ \A a \in op'.addrs : book'[a] = (IF op'.ttl = 0 THEN None ELSE [ttl |-> op'.ttl, rem |-> Life(op'.ttl)])
+       /\ (Cap = 0 \/ op'.ttl = 0) =>
+            \A a \in op'.addrs : book'[a] = (IF op'.ttl = 0 THEN None ELSE [ttl |-> op'.ttl, rem |-> Life(op'.ttl)])
        /\ (Cap = 0 \/ op'.ttl = 0) => \A a \in Addrs \ op'.addrs : book'[a] = book[a]]_vars
 \* a TTL-class update moves exactly the addresses in that class
 UpdateExactlyClass ==
